@@ -237,6 +237,23 @@ CHECKS["C11"] = dict(
     note="The float mean / log-exp mean itself is only bracketed (TLA+ has no float arithmetic). The surrogate "
          "optimizer's protocol is not traced yet. Private collection lists are read via name-mangled attributes.")
 
+CHECKS["C16"] = dict(
+    category="model_checking", design_ref="DESIGN.md section 2 (C16)",
+    technique="documented controller formulas in TLA+ (monomial sets and parameter<->monomial bijection, nearest-anchor "
+              "law, exact peak sums, layered-network data-flow shape); generator design model-checked; real controllers "
+              "probed on exact integer inputs and generated ANN code executed symbolically, all judged by TLC",
+    text="AnnGen.tla model-checks the code generator design for every architecture of the scope (each neuron reads "
+         "exactly the previous layer, parameter count formula) and that the prime-valued probe states separate all "
+         "monomials. Trace_Ctrl: polynomial controllers must map parameters bijectively onto the complete monomial set "
+         "(order-free) and be linear in the parameters; partially linear controllers must apply the law of a nearest "
+         "anchor (ties free); peaks equal the sum of active multipliers on exact pre-activations; the data-flow graph "
+         "recovered from the generated ANN source must be the layered network with every parameter used exactly once "
+         "and the compiled network gives 0 for zero parameters; minimising networks stay in [-1000,1000]; Lorenz exact "
+         "on integer states, the other systems on axis states; inputs unchanged.",
+    note="Two genuine defects found and fixed (73d0a89, e91c905). NOT covered: arctan/exp based values away from exact "
+         "points, the predefined laws, cubic terms of Stuart-Landau/oscillators for general states (no float "
+         "arithmetic in TLA+). Controller rejects 1 input dimension, so architectures start at 2 inputs.")
+
 NOT_YET = {
 }
 
